@@ -8,7 +8,8 @@ import Driver.Util
     ops
     * `vol <hdrSize> <sniffLen> <exts 0|1> <fixedOff _|n> <footerSize> <member single|hdr|img>
            <extender0> <payload lens a,b|-> <padLen> <dataLen> <footerLen> <mmap 0|1> <comp 0|1>
-           <tail _|a> <k> <m> <strict 0|1>`   (`tail a`: partial read `dataobj[..., -1]` = data bytes from `a`)
+           <tail _|a> <k> <m> <strict 0|1>`   (`tail a`: partial read `dataobj[..., -1]` = data bytes from `a`;
+      `s:<isz>:<shape>:<idx>`: partial read `dataobj[idx]`, idx items `i<k>` / `s<a>,<b>,<c>` (`_` = None) joined by `;`)
     * `trk <nsc> <npr> <npts a,b|-> <count _|n> <orig 0|1> <k> <m> <strict>`
     * `tck <hex header lines a,b|-> <npts a,b|-> <k> <m> <strict>`
     * `xml <plainLen> <rootEnd> <k> <m> <strict>`
@@ -38,6 +39,33 @@ def parseHex? : List Char → Option Bytes
 def parseHexList? (s : String) : Option (List Bytes) :=
   if s = "-" then some [] else (s.splitOn ",").mapM (fun t => parseHex? t.toList)
 
+def parseItem? (s : String) : Option C06.IdxItem :=
+  if s = "n" then some .newaxis
+  else if s = "e" then some .ellipsis
+  else if s.startsWith "i" then (s.drop 1).toString.toInt?.map C06.IdxItem.int
+  else if s.startsWith "s" then
+    match ((s.drop 1).toString.splitOn ",").mapM parseOptInt? with
+    | some [a, b, c] => some (.slice ⟨a, b, c⟩)
+    | _ => none
+  else none
+
+/-- what is read: `_` everything, `<a>` the data bytes from `a` on, `s:<isz>:<shape>:<idx>` the partial
+    read `dataobj[idx]` -/
+inductive What where
+  | all
+  | tail (a : Nat)
+  | slice (isz : Nat) (shape : List Nat) (idx : List C06.IdxItem)
+
+def parseWhat? (s : String) : Option What :=
+  if s = "_" then some .all
+  else match s.splitOn ":" with
+    | ["s", isz, shape, idx] =>
+      match isz.toNat?, parseNatList? shape, (idx.splitOn ";").mapM parseItem? with
+      | some isz, some shape, some idx => some (.slice isz shape idx)
+      | _, _, _ => none
+    | [a] => a.toNat?.map What.tail
+    | _ => none
+
 /-- deterministic synthetic content -/
 def synth (seed n : Nat) : Bytes := (List.range n).map (fun i => (i * 7 + seed * 13 + 3) % 251)
 
@@ -53,7 +81,7 @@ def outcome {α : Type} [DecidableEq α] (r : Except Err α) (want : α) : Strin
 def handle : List String → String
   | ["vol", hs, sl, ex, fo, ft, member, e0, pl, padn, dn, fn, mm, cp, tl, k, m, st] =>
       match hs.toNat?, sl.toNat?, parseBool? ex, parseOptNat? fo, ft.toNat?, e0.toNat?, parseNatList? pl,
-            padn.toNat?, dn.toNat?, fn.toNat?, parseBool? mm, parseBool? cp, parseOptNat? tl, k.toNat?, m.toNat?,
+            padn.toNat?, dn.toNat?, fn.toNat?, parseBool? mm, parseBool? cp, parseWhat? tl, k.toNat?, m.toNat?,
             parseBool? st with
       | some hs, some sl, some ex, some fo, some ft, some e0, some pl, some padn, some dn, some fn, some mm,
         some cp, some tl, some k, some m, some st =>
@@ -63,24 +91,42 @@ def handle : List String → String
                              exts := pl.zipIdx.map (fun (n, i) => (6, synth (i + 2) n)),
                              pad := List.replicate padn 0, data := synth 5 dn, footer := synth 9 fn }
           let um := effMmap mm cp
-          let want := match tl with | none => img.data | some a => img.data.drop a
+          -- the bytes a read of the COMPLETE file delivers (`dataFile`: the file holding the data)
+          let want (dataFile : Bytes) (off : Nat) : Bytes := match tl with
+            | .all => img.data
+            | .tail a => img.data.drop a
+            | .slice isz shape idx =>
+              match C06.calcSlicedefs (C06.thresholdHeuristic skipThresh) idx shape isz off .F with
+              | .ok d => match natSegs d.segments with
+                | some segs => sliceBytes dataFile segs
+                | none => []
+              | .error _ => []
           if member = "single" then
             let file := writeSingle fmt img
             let s : Src := ⟨file.take m, st⟩
-            let r := match tl with | none => readSingle fmt um s | some a => readTailSingle fmt s a
-            outcome (load k r) want ++ " " ++ toString file.length
+            let r := match tl with
+              | .all => readSingle fmt um s
+              | .tail a => readTailSingle fmt s a
+              | .slice isz shape idx => readSliceSingle fmt s idx shape isz
+            outcome (load k r) (want file (singleOff fmt img)) ++ " " ++ toString file.length
           else if member = "hdr" then
             let file := writeHdrFile fmt img
             let hs : Src := ⟨file.take m, st⟩
             let is := Src.plain (writeImgFile img)
-            let r := match tl with | none => readPair fmt um hs is | some a => readTailPair fmt hs is a
-            outcome (load k r) want ++ " " ++ toString file.length
+            let r := match tl with
+              | .all => readPair fmt um hs is
+              | .tail a => readTailPair fmt hs is a
+              | .slice isz shape idx => readSlicePair fmt hs is idx shape isz
+            outcome (load k r) (want (writeImgFile img) 0) ++ " " ++ toString file.length
           else if member = "img" then
             let file := writeImgFile img
             let hs := Src.plain (writeHdrFile fmt img)
             let is : Src := ⟨file.take m, st⟩
-            let r := match tl with | none => readPair fmt um hs is | some a => readTailPair fmt hs is a
-            outcome (load k r) want ++ " " ++ toString file.length
+            let r := match tl with
+              | .all => readPair fmt um hs is
+              | .tail a => readTailPair fmt hs is a
+              | .slice isz shape idx => readSlicePair fmt hs is idx shape isz
+            outcome (load k r) (want file 0) ++ " " ++ toString file.length
           else "bad-op"
       | _, _, _, _, _, _, _, _, _, _, _, _, _, _, _, _ => "bad-op"
   | ["trk", nsc, npr, npts, cnt, orig, _k, m, st] =>
